@@ -475,9 +475,9 @@ class ExtendSchemaImpl:
                         scalar_extensions = type_extensions.scalar[name]
                         specified_by_url = get_specified_by_url(ast_node)
                         for extension_node in scalar_extensions:
-                            specified_by_url = (
-                                get_specified_by_url(extension_node) or specified_by_url
-                            )
+                            extension_url = get_specified_by_url(extension_node)
+                            if extension_url is not None:
+                                specified_by_url = extension_url
                         return GraphQLScalarType(
                             name=name,
                             description=description,
@@ -586,9 +586,9 @@ class ExtendSchemaImpl:
                 extensions = tuple(type_extensions.scalar[config["name"]])
                 specified_by_url = config["specified_by_url"]
                 for extension_node in extensions:
-                    specified_by_url = (
-                        get_specified_by_url(extension_node) or specified_by_url
-                    )
+                    extension_url = get_specified_by_url(extension_node)
+                    if extension_url is not None:
+                        specified_by_url = extension_url
                 return merge_kwargs(
                     config,
                     specified_by_url=specified_by_url,
